@@ -160,12 +160,9 @@ pub fn run(ctx: &mut Ctx, _replay: Option<&[String]>) {
             let out_len = if rng.chance(1, 2) { n - h.num_rows().min(n) } else { rng.range(0, n) };
             let ncalls = rng.range(1, 5);
             let (Some(a), Some(nm), Some(ps)) = (cs(&h.alist()), cs(&imp.to_string()), cs(&pattern_str(&pattern))) else { continue };
-            let handle = unsafe { ldpc_toolbox_decoder_ctor_alist_string(a.as_ptr(), nm.as_ptr(), ps.as_ptr()) };
-            if handle.is_null() { ctx.tag("UNEXPECTED-NULL-HANDLE"); continue; }
-            let mut rust = imp.build_decoder(SparseMatrix::from_alist(&h.alist()).unwrap());
-            let punct = pattern.as_ref().map(|p| Puncturer::new(p));
-            let (mut cres, mut rres, mut calls_s) = (Vec::new(), Vec::new(), Vec::new());
-            for _ in 0..ncalls {
+            // the inputs of the whole call sequence are drawn here; the sequence itself (constructor, Rust reference, C calls, destructor) runs
+            // in a forked child, so that a panic inside an extern "C" function -- which aborts the process -- is an observable outcome
+            let calls: Vec<(Vec<f64>, u32, bool)> = (0..ncalls).map(|_| {
                 let (full, _) = gen_llrs(&mut rng, &h);
                 // what goes over the air: the unpunctured positions
                 let mut sent: Vec<f64> = match &pattern {
@@ -174,37 +171,63 @@ pub fn run(ctx: &mut Ctx, _replay: Option<&[String]>) {
                 };
                 let f32call = if mixed { rng.chance(1, 2) } else { f32mode };
                 if f32call { sent = sent.iter().map(|&x| (x as f32) as f64).collect(); }
-                let limit = *rng.pick(&[0u32, 1, 2, 5, 20]);
-                // the Rust decoder first, on the depunctured LLRs (f32 input behaving as its f64 widening).  If IT panics (the float A-Min*
-                // decoders do when f32 messages overflow to NaN, DESIGN.md section 4 (9)) there is nothing to compare with, and the same
-                // panic inside the extern "C" function would abort this process: the call sequence ends here.
-                let dep = match &punct { Some(p) => p.depuncture(&sent).unwrap(), None => sent.clone() };
-                let rr = {
-                    let d = std::panic::AssertUnwindSafe(&mut rust);
-                    let dep2 = dep.clone();
-                    crate::guarded(move || { let d = d; d.0.decode(&dep2, limit as usize) })
-                };
-                let Ok(rr) = rr else { ctx.tag("rust-decoder-panicked-c-call-skipped"); break; };
-                let mut out = vec![7u8; out_len];
-                let ret = unsafe {
-                    if f32call {
-                        let s32: Vec<f32> = sent.iter().map(|&x| x as f32).collect();
-                        ldpc_toolbox_decoder_decode_f32(handle, out.as_mut_ptr(), out_len, s32.as_ptr(), s32.len(), limit)
-                    } else {
-                        ldpc_toolbox_decoder_decode_f64(handle, out.as_mut_ptr(), out_len, sent.as_ptr(), sent.len(), limit)
-                    }
-                };
-                cres.push(format!("{}:{}", ret, bools(out.iter().map(|&b| b == 1))));
-                let (rret, word) = match rr {
-                    Ok(o) => (o.iterations as i64, o.codeword), Err(o) => (-1, o.codeword) };
-                rres.push(format!("{}:{}", rret, bools(word.iter().take(out_len).map(|&b| b == 1))));
-                calls_s.push(fmt_call(limit as usize, &sent));
+                (sent, *rng.pick(&[0u32, 1, 2, 5, 20]), f32call)
+            }).collect();
+            let (calls2, pattern2, h2, imp2) = (calls.clone(), pattern.clone(), h.clone(), *imp);
+            let res = crate::c06::with_time_limit(300, move || {
+                let handle = unsafe { ldpc_toolbox_decoder_ctor_alist_string(a.as_ptr(), nm.as_ptr(), ps.as_ptr()) };
+                if handle.is_null() { return "NULL".to_string(); }
+                let mut rust = imp2.build_decoder(SparseMatrix::from_alist(&h2.alist()).unwrap());
+                let punct = pattern2.as_ref().map(|p| Puncturer::new(p));
+                let (mut cres, mut rres) = (Vec::new(), Vec::new());
+                for (sent, limit, f32call) in &calls2 {
+                    let limit = *limit;
+                    // the Rust decoder first, on the depunctured LLRs (f32 input behaving as its f64 widening).  If IT panics (the float A-Min*
+                    // decoders do when f32 messages overflow to NaN, DESIGN.md section 4 (9)) there is nothing to compare the C call with: the
+                    // call sequence ends here.
+                    let dep = match &punct { Some(p) => p.depuncture(sent).unwrap(), None => sent.clone() };
+                    let rr = {
+                        let d = std::panic::AssertUnwindSafe(&mut rust);
+                        let dep2 = dep.clone();
+                        crate::guarded(move || { let d = d; d.0.decode(&dep2, limit as usize) })
+                    };
+                    let Ok(rr) = rr else { break; };
+                    let mut out = vec![7u8; out_len];
+                    let ret = unsafe {
+                        if *f32call {
+                            let s32: Vec<f32> = sent.iter().map(|&x| x as f32).collect();
+                            ldpc_toolbox_decoder_decode_f32(handle, out.as_mut_ptr(), out_len, s32.as_ptr(), s32.len(), limit)
+                        } else {
+                            ldpc_toolbox_decoder_decode_f64(handle, out.as_mut_ptr(), out_len, sent.as_ptr(), sent.len(), limit)
+                        }
+                    };
+                    cres.push(format!("{}:{}", ret, bools(out.iter().map(|&b| b == 1))));
+                    let (rret, word) = match rr {
+                        Ok(o) => (o.iterations as i64, o.codeword), Err(o) => (-1, o.codeword) };
+                    rres.push(format!("{}:{}", rret, bools(word.iter().take(out_len).map(|&b| b == 1))));
+                }
+                unsafe { ldpc_toolbox_decoder_dtor(handle) };
+                format!("{} | {}", cres.join(" "), rres.join(" "))
+            });
+            let head = format!("c19 dec {} {} {} {} {}", if mixed { "mix" } else if f32mode { "f32" } else { "f64" }, imp, sm(&SparseMatrix::from_alist(&h.alist()).unwrap()),
+                pattern.as_ref().map(|p| bools(p.iter().copied())).unwrap_or("-".into()), out_len);
+            let tags = [fam, if mixed { "decode-f32-and-f64-on-one-handle" } else if f32mode { "decode-f32" } else { "decode-f64" }, if pattern.is_some() { "with-puncturing" } else { "no-puncturing" }];
+            if res == "NULL" {
+                ctx.tag("UNEXPECTED-NULL-HANDLE");
+                ctx.emit(&head, "null-handle-for-a-valid-matrix-name-and-pattern | ok", true, &[fam, "decoder-constructor-returned-null"]);
+                continue;
             }
-            unsafe { ldpc_toolbox_decoder_dtor(handle) };
-            let input = format!("c19 dec {} {} {} {} {} {}", if mixed { "mix" } else if f32mode { "f32" } else { "f64" }, imp, sm(&SparseMatrix::from_alist(&h.alist()).unwrap()),
-                pattern.as_ref().map(|p| bools(p.iter().copied())).unwrap_or("-".into()), out_len, calls_s.join(" "));
-            ctx.emit(&input, &format!("{} | {}", cres.join(" "), rres.join(" ")), ncalls >= 2,
-                &[fam, if mixed { "decode-f32-and-f64-on-one-handle" } else if f32mode { "decode-f32" } else { "decode-f64" }, if pattern.is_some() { "with-puncturing" } else { "no-puncturing" }]);
+            if res == "abort" || res == "timeout" {
+                // the process died inside the call sequence (a panic across the FFI boundary aborts): a finding with this input
+                let all: Vec<String> = calls.iter().map(|(s, l, _)| fmt_call(*l as usize, s)).collect();
+                ctx.emit(&format!("{} {}", head, all.join(" ")), &format!("process-{}-inside-the-C-call-sequence | ok", res), true, &[fam, "c-call-sequence-aborted"]);
+                continue;
+            }
+            // calls that were completed (the sequence stops where the Rust reference decoder panics)
+            let done = res.split(" | ").next().map(|c| c.split_whitespace().count()).unwrap_or(0);
+            if done < calls.len() { ctx.tag("rust-decoder-panicked-c-call-skipped"); }
+            let calls_s: Vec<String> = calls.iter().take(done).map(|(s, l, _)| fmt_call(*l as usize, s)).collect();
+            ctx.emit(&format!("{} {}", head, calls_s.join(" ")), &res, ncalls >= 2, &tags);
         }
     }
     // ---------------------------------------------------------------- encode
@@ -223,7 +246,13 @@ pub fn run(ctx: &mut Ctx, _replay: Option<&[String]>) {
         } else { None };
         let (Some(a), Some(ps)) = (cs(&h.alist()), cs(&pattern_str(&pattern))) else { continue };
         let handle = unsafe { ldpc_toolbox_encoder_ctor_alist_string(a.as_ptr(), ps.as_ptr()) };
-        if handle.is_null() { ctx.tag("UNEXPECTED-NULL-ENCODER"); continue; }
+        if handle.is_null() {
+            // a null handle for a valid (matrix, pattern) pair is a finding, not something to skip
+            ctx.tag("UNEXPECTED-NULL-ENCODER");
+            let input = format!("c19 enc {} {} {}", sm(&h), pattern.as_ref().map(|p| bools(p.iter().copied())).unwrap_or("-".into()), "-");
+            ctx.emit(&input, "null-handle-for-a-valid-matrix-and-pattern | ok", true, &[fam, "encoder-constructor-returned-null"]);
+            continue;
+        }
         // bytes other than 0/1 count as zero
         let msg: Vec<u8> = (0..k).map(|_| *rng.pick(&[0u8, 1, 1, 0, 2, 255])).collect();
         let expected = {
